@@ -23,40 +23,7 @@ def resolved(sl, name):
     return Slice(sl.rel, sl.start, sl.end, t, sl.line)
 
 
-def extract(ctx):
-    sliced, fired = [], {}
-    # ---------------- limiter_node ------------------------------------------------
-    lm = CClass(FG, r'class limiter_node : public graph_node, public receiver< T >, public sender< T > \{', 'limiter')
-    lm.harvest_members(['my_threshold', 'my_count', 'my_tries', 'my_future_decrement'])
-    rw = lm.rw
-    PRE = [(r'spin_mutex::scoped_lock lock\(my_mutex\);', 'LOCKED_SECTION();', 0),
-           (r' __TBB_FLOW_GRAPH_METAINFO_ARG\([^()]*(?:\([^()]*\))?[^()]*\)', '', 0),
-           (r'my_predecessors\.empty\(\)', 'STUB_pred_empty()', 0), (r'my_successors\.empty\(\)', 'STUB_succ_empty()', 0),
-           (r'my_successors\.try_put_task\(\w+\)', 'STUB_succ_try_put_task()', 0),
-           (r'my_predecessors\.try_reserve\(v\)', 'STUB_pred_try_reserve()', 0),
-           (r'my_predecessors\.try_consume\(\);', 'STUB_pred_try_consume();', 0), (r'my_predecessors\.try_release\(\);', 'STUB_pred_try_release();', 0),
-           (r'is_graph_active\(this->my_graph\)', 'STUB_is_graph_active()', 0),
-           (r'd1::small_object_allocator allocator\{\};', 'RG_NOP();', 0),
-           (r'typedef forward_task_bypass<limiter_node<T, ?DecrementType>> task_type;', 'RG_NOP();', 0),
-           (r'allocator\.new_object<task_type>\(\s*my_graph, allocator, \*this\s*\)', 'STUB_new_forward_task()', 0),
-           (r'spawn_in_graph_arena\(graph_reference\(\), \*rtask\);', 'STUB_spawn(rtask);', 0),
-           (r'input_type v;', 'RG_NOP();', 0), (r'\bgraph_task\*', 'graph_task*', 0)]
-    M = ['check_conditions', 'forward_task']
-    common.write(ctx, 'limiter_struct.inc', lm.struct_decl())
-    out = []
-    out.append(lm.convert(resolved(lm.method(r'bool check_conditions\(\)'), 'check_conditions'), 'limiter_check_conditions', pre=PRE))
-    t = lm.convert(resolved(lm.method(r'graph_task\* try_put_task_impl\( const T &t'), 'try_put_task_impl'), 'limiter_try_put_task_impl', methods=M, pre=PRE)
-    t = rw.sub(t, r'\(struct limiter\* self, T\* t\)', '(struct limiter* self)', 1, 1, name='drop forwarded-only parameter t')
-    out.append(t)
-    t = lm.convert(resolved(lm.method(r'graph_task\* forward_task\(\)'), 'forward_task'), 'limiter_forward_task', methods=['check_conditions'], pre=PRE)
-    out.append(t)
-    t = lm.convert(resolved(lm.method(r'graph_task\* decrement_counter\( long long delta \)'), 'decrement_counter'), 'limiter_decrement_counter', methods=['forward_task_STUB'],
-                   pre=PRE + [(r'return forward_task\(\);', 'return STUB_forward_task(self);', 1)], fcast=['size_t'])
-    out.append(t)
-    common.write(ctx, 'limiter.inc', '\n'.join(out))
-    sliced += lm.sliced
-    fired['limiter_node'] = rw.fired
-
+def extract_item_buffer(ctx, sliced, fired, more=()):
     # ---------------- item_buffer + sequencer_node::internal_push ------------------------
     ib = CClass(IB, r'class item_buffer \{', 'item_buffer', tbind={'size_type': 'size_t', 'item_type': 'item_type', 'buffer_item_type': 'aligned_space_item'})
     ib.harvest_members(['my_array', 'my_array_size', 'my_head', 'my_tail'])
@@ -93,7 +60,49 @@ def extract(ctx):
     out.append(conv(r'size_type capacity\(\)', 'item_buffer_capacity'))
     txt = '\n'.join(out)
     txt = rw.sub(txt, r'VERIF_ASSERT\(!\(\(\(size_t\)\(&\(self->my_array\[[^\n]*\n', 'RG_NOP();\n', 0, name='alignment asserts -> RG_NOP')
+    for sig_, cfn_, extra_, ret_ in more:
+        out.append(conv(sig_, cfn_, extra=extra_, ret=ret_))
+    txt = '\n'.join(out)
+    txt = rw.sub(txt, r'VERIF_ASSERT\(!\(\(\(size_t\)\(&\(self->my_array\[[^\n]*\n', 'RG_NOP();\n', 0, name='alignment asserts -> RG_NOP')
     common.write(ctx, 'item_buffer.inc', txt)
+    return ib, rw, conv
+
+
+def extract(ctx):
+    sliced, fired = [], {}
+    # ---------------- limiter_node ------------------------------------------------
+    lm = CClass(FG, r'class limiter_node : public graph_node, public receiver< T >, public sender< T > \{', 'limiter')
+    lm.harvest_members(['my_threshold', 'my_count', 'my_tries', 'my_future_decrement'])
+    rw = lm.rw
+    PRE = [(r'spin_mutex::scoped_lock lock\(my_mutex\);', 'LOCKED_SECTION();', 0),
+           (r' __TBB_FLOW_GRAPH_METAINFO_ARG\([^()]*(?:\([^()]*\))?[^()]*\)', '', 0),
+           (r'my_predecessors\.empty\(\)', 'STUB_pred_empty()', 0), (r'my_successors\.empty\(\)', 'STUB_succ_empty()', 0),
+           (r'my_successors\.try_put_task\(\w+\)', 'STUB_succ_try_put_task()', 0),
+           (r'my_predecessors\.try_reserve\(v\)', 'STUB_pred_try_reserve()', 0),
+           (r'my_predecessors\.try_consume\(\);', 'STUB_pred_try_consume();', 0), (r'my_predecessors\.try_release\(\);', 'STUB_pred_try_release();', 0),
+           (r'is_graph_active\(this->my_graph\)', 'STUB_is_graph_active()', 0),
+           (r'd1::small_object_allocator allocator\{\};', 'RG_NOP();', 0),
+           (r'typedef forward_task_bypass<limiter_node<T, ?DecrementType>> task_type;', 'RG_NOP();', 0),
+           (r'allocator\.new_object<task_type>\(\s*my_graph, allocator, \*this\s*\)', 'STUB_new_forward_task()', 0),
+           (r'spawn_in_graph_arena\(graph_reference\(\), \*rtask\);', 'STUB_spawn(rtask);', 0),
+           (r'input_type v;', 'RG_NOP();', 0), (r'\bgraph_task\*', 'graph_task*', 0)]
+    M = ['check_conditions', 'forward_task']
+    common.write(ctx, 'limiter_struct.inc', lm.struct_decl())
+    out = []
+    out.append(lm.convert(resolved(lm.method(r'bool check_conditions\(\)'), 'check_conditions'), 'limiter_check_conditions', pre=PRE))
+    t = lm.convert(resolved(lm.method(r'graph_task\* try_put_task_impl\( const T &t'), 'try_put_task_impl'), 'limiter_try_put_task_impl', methods=M, pre=PRE)
+    t = rw.sub(t, r'\(struct limiter\* self, T\* t\)', '(struct limiter* self)', 1, 1, name='drop forwarded-only parameter t')
+    out.append(t)
+    t = lm.convert(resolved(lm.method(r'graph_task\* forward_task\(\)'), 'forward_task'), 'limiter_forward_task', methods=['check_conditions'], pre=PRE)
+    out.append(t)
+    t = lm.convert(resolved(lm.method(r'graph_task\* decrement_counter\( long long delta \)'), 'decrement_counter'), 'limiter_decrement_counter', methods=['forward_task_STUB'],
+                   pre=PRE + [(r'return forward_task\(\);', 'return STUB_forward_task(self);', 1)], fcast=['size_t'])
+    out.append(t)
+    common.write(ctx, 'limiter.inc', '\n'.join(out))
+    sliced += lm.sliced
+    fired['limiter_node'] = rw.fired
+
+    ib, rw, conv = extract_item_buffer(ctx, sliced, fired)
     sq = CClass(FG, r'class sequencer_node : public queue_node<T> \{', 'item_buffer', rw=rw)
     sq.members = ib.members
     s = resolved(sq.method(r'bool internal_push\(sequencer_operation \*op\) override'), 'sequencer_internal_push')
